@@ -583,7 +583,10 @@ func floatLayers(tier string) []Layer {
 					}
 				}
 				if u < 4 {
-					nearestCase(c, mkSpecial([]int8{fZero, fInf}[u%2], u >= 2, 5, 0), "")
+					sp := mkSpecial([]int8{fZero, fInf}[u%2], u >= 2, 5, 0)
+					for k := range staleKinds {
+						nearestCase(c, sp.withStale(int8(k)), "") // fresh, and living in a variable that held a finite value before
+					}
 				}
 			},
 		})
@@ -671,17 +674,19 @@ func floatLayers(tier string) []Layer {
 					}
 				}
 				if u < 4 {
-					sp := mkSpecial([]int8{fZero, fInf}[u%2], u >= 2, 9, ToZero)
-					x := sp.Build()
-					for _, z := range []*big.Float{nil, new(big.Float).SetPrec(30).SetInt64(5), new(big.Float).SetPrec(30).SetInf(false), new(big.Float).SetPrec(30).SetInf(true)} {
-						if c.Skip() {
-							continue
-						}
-						var got *big.Float
-						pv, _ := protect(func() { got = x.Float(z) })
-						ok := pv == nil && got != nil && got.Signbit() == sp.Neg && ((sp.Form == fZero && got.Sign() == 0 && !got.IsInf()) || (sp.Form == fInf && got.IsInf()))
-						if !ok {
-							c.Fail(fmt.Sprintf("Float x=%s", sp), fmt.Sprintf("panic=%v got=%v", pv, got))
+					for k := range staleKinds {
+						sp := mkSpecial([]int8{fZero, fInf}[u%2], u >= 2, 9, ToZero).withStale(int8(k))
+						x := sp.Build()
+						for _, z := range []*big.Float{nil, new(big.Float).SetPrec(30).SetInt64(5), new(big.Float).SetPrec(30).SetInf(false), new(big.Float).SetPrec(30).SetInf(true)} {
+							if c.Skip() {
+								continue
+							}
+							var got *big.Float
+							pv, _ := protect(func() { got = x.Float(z) })
+							ok := pv == nil && got != nil && got.Signbit() == sp.Neg && ((sp.Form == fZero && got.Sign() == 0 && !got.IsInf()) || (sp.Form == fInf && got.IsInf()))
+							if !ok {
+								c.Fail(fmt.Sprintf("Float x=%s", sp), fmt.Sprintf("panic=%v got=%v", pv, got))
+							}
 						}
 					}
 				}
